@@ -5,6 +5,9 @@ import glob, json, os, re
 
 MISSED = {
  # round 4 (G, H)
+ 'C16-G': 'group `methods`: every route x 12 HTTP methods x refused credentials (no header, 90+ forgeries, revoked, expired, altered byte) and restricted tokens; gate oracle: no 2xx behind the auth chain, no effect, no secret in the response',
+ 'C17-G': 'forbidden-prompt / cache indexes created with time decay (memory indexes) and stored entries of drawn ages: rank order and distance order differ',
+ 'C17-H': 'group `expiry` (answers the gateway stored itself grow older than a 2-12 s TTL in real time) + read-out of created_at of every gateway-stored entry against the clock bracket',
  'C01-G': 'same edit as C13-H (cleanup of a refused compaction ends the running snapshot\'s mode): needs a compaction arriving while a snapshot is written - caught by C14 as it stood; C01 part `conc` (two administration goroutines) drives that overlap now. **Obsolete** since fix e1c9bc9 (compactions and snapshots exclude each other): the trigger is unreachable',
  'C01-H': 'C01 part `conc`: histories made by overlapping calls of several clients, restart from the plain log (also caught by C13 as it stood)',
  'C03-G': 'groups `longscan` / `scanedge`: damaged regions longer than the 8 KiB scan chunk, magic bytes and following frames at every offset around chunk boundaries, a second start on the repaired file',
